@@ -35,21 +35,25 @@ from vgi_rpc.http._unauthorized import AuthFailure, AuthReason
 
 PROPERTY = "C43"
 ENCODED = [mt._parse_xfcc, mt._split_respecting_quotes, mt._unescape_quoted, mt._extract_cn, mt.mtls_authenticate_xfcc]
-_N1 = pick(3, 4)  # split stage: hostile value length
-_N1B = pick(2, 3)  # split stage: both subjects
+_N1 = pick(2, 3)  # split stage: hostile value in any slot
+_N1S = pick(3, 4)  # split stage: hostile Subject of element 0
+_N1B = pick(2, 3)  # split stage: both subjects (second one: one code point fewer)
 _N2 = pick(2, 3)  # value extraction, plain keys
 _N2U = pick(1, 2)  # value extraction through the URL decoder
 _N3 = pick(1, 2)  # pipeline
-_NH = pick(2, 4)  # arbitrary header
+_NH = pick(1, 3)  # arbitrary header, any code point
 _NB = pick(4, 7)  # blank header
+_NA = pick(3, 5)  # structural-alphabet header
 _CP = 0x110000
+_CPH = 0x110000
+_CP3 = pick(0x100, 0x110000)  # pipeline item: quick = latin-1 (what a WSGI server can deliver); Unicode white space is in the CN item
 BOUNDS = (
-    f"all characters = every code point 0..0x10FFFF; split stage: one hostile value len<={_N1} in any of 6 slots, or both Subjects len<={_N1B}; "
-    f"value extraction: len<={_N2} (Subject/Hash/DNS), len<={_N2U} (URI/By); pipeline: hostile suffix len<={_N3} in either Subject; "
-    f"arbitrary header: any string len<={_NH}; blank headers: len<={_NB} over space/comma/tab"
+    f"all characters = every code point 0..0x10FFFF; split stage: one hostile value len<={_N1} in any of 6 slots / len<={_N1S} as first Subject, or both Subjects len<={_N1B}/{_N1B - 1}; "
+    f"value extraction: len<={_N2} (Subject/Hash/DNS), len<={_N2U} (URI/By); pipeline: hostile suffix len<={_N3} (code points below {_CP3:#x}) in either Subject; "
+    f"arbitrary header: any string len<={_NH}, and every string len<={_NA} over the structural alphabet \" \\ , ; = space % a B; blank headers: len<={_NB} over space/comma/tab"
 )
 OUTSIDE = (
-    "PEM-in-header factories (cryptography); Cert field contents; whether the zero-length header value '' counts as 'missing' or 'empty' "
+    "PEM-in-header factories (cryptography); Cert field contents; urllib.parse.unquote (stdlib, trusted not to raise on str); whether the zero-length header value '' counts as 'missing' or 'empty' "
     "(either reason accepted); RFC 4514 escapes inside CN beyond trailing-space trimming; several hostile values in the same element at "
     "pipeline level (covered at split level only); headers longer than the stated bounds"
 )
@@ -167,6 +171,19 @@ def split_stage_one_hostile_value(slot: int, n: int, i0: int, i1: int, i2: int, 
     return _split_stage_ok(pairs)
 
 
+@cond(q=40, t=300, encoded=[mt._split_respecting_quotes], bound="Subject of element 0 = any %d code points" % _N1S,
+      replay=lambda a: _replay_split_one({**a, "slot": 1}), signature=lambda args, conc: "C43:split:quoted-value-splits-or-merges")
+def split_stage_hostile_first_subject(n: int, i0: int, i1: int, i2: int, i3: int) -> bool:
+    """
+    pre: 0 <= n <= _N1S and 0 <= i0 < _CP and 0 <= i1 < _CP and 0 <= i2 < _CP and 0 <= i3 < _CP
+    post: _
+    """
+    v, e = _val(n, i0, i1, i2, i3)
+    pairs = list(_BASE_PAIRS)
+    pairs[1] = 'Subject="' + e + '"'
+    return _split_stage_ok(pairs)
+
+
 def _replay_split_two(args: dict) -> str | None:
     _, ea = _concrete_val(args["na"], [args["a0"], args["a1"], args["a2"], 0])
     _, eb = _concrete_val(args["nb"], [args["b0"], args["b1"], args["b2"], 0])
@@ -179,11 +196,11 @@ def _replay_split_two(args: dict) -> str | None:
     return f"header {header!r} split into {mt._split_respecting_quotes(header, ',')!r}"
 
 
-@cond(q=40, t=300, encoded=[mt._split_respecting_quotes], bound="both Subject values = any %d code points each" % _N1B,
+@cond(q=40, t=300, encoded=[mt._split_respecting_quotes], bound="Subject values = any %d / %d code points" % (_N1B, _N1B - 1),
       replay=_replay_split_two, signature=lambda args, conc: "C43:split:quoted-value-splits-or-merges")
 def split_stage_both_subjects_hostile(na: int, a0: int, a1: int, a2: int, nb: int, b0: int, b1: int, b2: int) -> bool:
     """
-    pre: 0 <= na <= _N1B and 0 <= nb <= _N1B and 0 <= a0 < _CP and 0 <= a1 < _CP and 0 <= a2 < _CP and 0 <= b0 < _CP and 0 <= b1 < _CP and 0 <= b2 < _CP
+    pre: 0 <= na <= _N1B and 0 <= nb <= _N1B - 1 and 0 <= a0 < _CP and 0 <= a1 < _CP and 0 <= a2 < _CP and 0 <= b0 < _CP and 0 <= b1 < _CP and 0 <= b2 < _CP
     post: _
     """
     _, ea = _val(na, a0, a1, a2, 0)
@@ -334,11 +351,11 @@ def _replay_pipeline(args: dict) -> str | None:
         return f"header {header!r}: {type(ex).__name__}: {ex}"
 
 
-@cond(q=60, t=400, encoded=ENCODED, bound="Subject 'CN=a'/'CN=b' + any %d code points appended to either" % _N3,
+@cond(q=60, t=400, encoded=ENCODED, bound="Subject 'CN=a'/'CN=b' + any %d code points below %#x appended to either" % (_N3, _CP3),
       replay=_replay_pipeline, signature=lambda args, conc: "C43:pipeline:identity-not-from-selected-element")
 def pipeline_identity_from_selected_element(slot: bool, n: int, i0: int, i1: int) -> bool:
     """
-    pre: 0 <= n <= _N3 and 0 <= i0 < _CP and 0 <= i1 < _CP
+    pre: 0 <= n <= _N3 and 0 <= i0 < _CP3 and 0 <= i1 < _CP3
     post: _
     """
     return _pipeline_ok(slot, n, [i0, i1])
@@ -394,22 +411,94 @@ def _replay_arbitrary(args: dict) -> str | None:
     return None
 
 
-@cond(q=60, t=900, encoded=ENCODED, bound="header absent or any %d code points" % _NH,
+@cond(q=60, t=900, encoded=ENCODED, bound="any %d code points below %#x (select=first; select=last too for len<=1)" % (_NH, _CPH),
       replay=_replay_arbitrary, signature=lambda args, conc: "C43:arbitrary-header:wrong-outcome")
-def arbitrary_header_only_authfailure(present: bool, last: bool, n: int, i0: int, i1: int, i2: int, i3: int) -> bool:
+def arbitrary_header_only_authfailure(n: int, i0: int, i1: int, i2: int, i3: int) -> bool:
     """
-    pre: 0 <= n <= _NH and 0 <= i0 < _CP and 0 <= i1 < _CP and 0 <= i2 < _CP and 0 <= i3 < _CP
+    pre: 0 <= n <= _NH and 0 <= i0 < _CPH and 0 <= i1 < _CPH and 0 <= i2 < _CPH and 0 <= i3 < _CPH
     post: _
     """
     raw = _raw_of(n, [i0, i1, i2, i3])
-    # blank <=> only commas and white space (a quote or any other character makes an element)
-    blank = True
+    if not _arbitrary_lazy(raw, n, (i0, i1, i2, i3), False):
+        return False
+    return n > 1 or _arbitrary_lazy(raw, n, (i0, i1, i2, i3), True)
+
+
+def _is_blank(n: int, cps: tuple) -> bool:  # type: ignore[type-arg]
+    """Only commas and white space (a quote or any other character makes an element)."""
     k = 0
-    for i in (i0, i1, i2, i3):
+    for i in cps:
         if k < n and not (chr(i) == "," or chr(i).isspace()):
-            blank = False
+            return False
         k += 1
-    return _arbitrary_ok(present, raw, blank, last)
+    return True
+
+
+def _arbitrary_lazy(raw: str, n: int, cps: tuple, last: bool) -> bool:  # type: ignore[type-arg]
+    """Same judgement as _arbitrary_ok for a present header; the blank-ness oracle is evaluated after the call."""
+    try:
+        ctx = _AUTH[last](_Req(True, raw))
+    except AuthFailure as e:
+        if n == 0:
+            return e.reason is AuthReason.PROXY_REQUIRED or e.reason is AuthReason.INVALID_CREDENTIAL
+        return e.reason is AuthReason.INVALID_CREDENTIAL and _is_blank(n, cps)
+    except Exception:  # noqa: BLE001
+        return False
+    if n == 0 or _is_blank(n, cps):
+        return False
+    return ctx.authenticated is True and ctx.domain == "mtls" and isinstance(ctx.principal, str)
+
+
+_ALPHA = ['"', "\\", ",", ";", "=", " ", "%", "a", "B"]
+
+def _alpha_raw(n: int, ks: tuple) -> str:  # type: ignore[type-arg]
+    raw = ""
+    j = 0
+    for k in ks:
+        if j >= n:
+            break
+        c = _ALPHA[0]
+        for m in range(1, 9):
+            if k == m:
+                c = _ALPHA[m]
+        raw = raw + c
+        j += 1
+    return raw
+
+
+def _replay_alpha(args: dict) -> str | None:
+    ks = tuple(args[k] for k in ("k0", "k1", "k2", "k3", "k4"))
+    raw = "".join(_ALPHA[k] for k in ks[: args["n"]])
+    cps = tuple(ord(c) for c in raw) + (0,) * 5
+    for last in (False, True):
+        if not _arbitrary_lazy(raw, args["n"], cps, last):
+            try:
+                got = repr(_AUTH[last](_Req(True, raw)))
+            except Exception as e:  # noqa: BLE001
+                got = f"{type(e).__name__}({e}) reason={getattr(e, 'reason', None)!r}"
+            return f"x-forwarded-client-cert {raw!r} (select {'last' if last else 'first'}) -> {got}"
+    return None
+
+
+@cond(q=60, t=900, encoded=ENCODED, bound="every string of <=%d characters over the structural alphabet %s (select=last for len<=2 only)" % (_NA, "".join(_ALPHA)),
+      replay=_replay_alpha, signature=lambda args, conc: "C43:arbitrary-header:wrong-outcome")
+def structural_alphabet_header_only_authfailure(n: int, k0: int, k1: int, k2: int, k3: int, k4: int) -> bool:
+    """
+    pre: 0 <= n <= _NA and 0 <= k0 <= 8 and 0 <= k1 <= 8 and 0 <= k2 <= 8 and 0 <= k3 <= 8 and 0 <= k4 <= 8
+    post: _
+    """
+    raw = _alpha_raw(n, (k0, k1, k2, k3, k4))
+    cps = (ord(raw[0]) if n > 0 else 0, ord(raw[1]) if n > 1 else 0, ord(raw[2]) if n > 2 else 0, ord(raw[3]) if n > 3 else 0, ord(raw[4]) if n > 4 else 0)
+    # selection happens after parsing: 'last' is exercised on the shortest headers only (and in the pipeline item)
+    return _arbitrary_lazy(raw, n, cps, False) and (n > 2 or _arbitrary_lazy(raw, n, cps, True))
+
+
+@cond(q=10, t=30, encoded=[mt.mtls_authenticate_xfcc], bound="header absent, select first/last")
+def missing_header_is_proxy_required(last: bool) -> bool:
+    """
+    post: _
+    """
+    return _arbitrary_ok(False, "", True, last)
 
 
 @cond(q=30, t=200, encoded=ENCODED, bound="any %d characters over space/comma/tab" % _NB,
@@ -424,7 +513,12 @@ def blank_header_is_invalid_credential(last: bool, n: int, k0: int, k1: int, k2:
     for k in (k0, k1, k2, k3, k4, k5, k6):
         if j >= n:
             break
-        raw = raw + chr(32 + 12 * k - 35 * (k // 2))  # 0 -> ' ', 1 -> ',', 2 -> '\t'
+        c = " "
+        if k == 1:
+            c = ","
+        if k == 2:
+            c = "\t"
+        raw = raw + c
         j += 1
     try:
         _AUTH[last](_Req(True, raw))
@@ -461,17 +555,17 @@ def split_is_lossless_and_plain_without_quotes(text: str, semi: bool) -> bool:
 
 
 @cond(q=40, t=200, encoded=[mt._split_respecting_quotes],
-      bound="x + '\"' + a + d + (nothing | escaped quote | escaped backslash) + d + b + '\"' + y; x,y,a,b any single code point or empty (a,b not quote/backslash; x,y not quote)")
-def split_quoted_segment_adds_no_part(semi: bool, esc: int, nx: int, x0: int, ny: int, y0: int, na: int, a0: int, nb: int, b0: int) -> bool:
+      bound="x + '\"' + a + d + (nothing | escaped quote | escaped backslash) + d + b + '\"' + y; x,y any code point or empty (not quote); a,b any code point (not quote/backslash)")
+def split_quoted_segment_adds_no_part(semi: bool, esc: int, nx: int, x0: int, ny: int, y0: int, a0: int, b0: int) -> bool:
     """
-    pre: 0 <= esc <= 2 and 0 <= nx <= 1 and 0 <= ny <= 1 and 0 <= na <= 1 and 0 <= nb <= 1 and 0 <= x0 < _CP and 0 <= y0 < _CP and 0 <= a0 < _CP and 0 <= b0 < _CP
+    pre: 0 <= esc <= 2 and 0 <= nx <= 1 and 0 <= ny <= 1 and 0 <= x0 < _CP and 0 <= y0 < _CP and 0 <= a0 < _CP and 0 <= b0 < _CP
     post: _
     """
     d = ";" if semi else ","
     x = chr(x0) if nx else ""
     y = chr(y0) if ny else ""
-    a = chr(a0) if na else ""
-    b = chr(b0) if nb else ""
+    a = chr(a0)
+    b = chr(b0)
     if x == '"' or y == '"' or a == '"' or b == '"' or a == "\\" or b == "\\":
         return True
     mid = ""
